@@ -16,6 +16,7 @@ EXHAUSTIVE = {"quick": True, "thorough": True}
 
 SCHEMA = [Opt("i", "int", 0, 7, "w"), Opt("s", "str", 0, b"d", "w"), Opt("f", "float", 0, 1.5, "w"), Opt("b", "bool", 0, True),
           Opt("l", "int", LIST, [b"1", b"2"], "w"), Opt("sl", "str", LIST, [b"x", b"y"]), Opt("e", "int", LIST, None),
+          Opt("fl", "float", LIST, [b"0.5", b"2"]), Opt("bl", "bool", LIST, [b"true"]),
           Opt("m", "sec", MULTI | TITLE, None, "-", [Opt("x", "int", 0, 3)]),
           Opt("one", "sec", 0, None, "-", [Opt("w", "int", 0, 1)]),
           Opt("n", "sec", MULTI, None, "-", [Opt("y", "int", 0, 4)])]
@@ -24,11 +25,12 @@ SCHEMA = [Opt("i", "int", 0, 7, "w"), Opt("s", "str", 0, b"d", "w"), Opt("f", "f
 def preps(maxn):
     out = {"pristine": []}
     out["set"] = ["SI 0 %s 0 5" % hx("i"), "SS 0 %s 0 %s" % (hx("s"), hx("v")), "SF 0 %s 0 %s" % (hx("f"), dbits(2.0)), "SB 0 %s 0 0" % hx("b"),
-                  "SL 0 %s 4 5 6" % hx("l"), "SL 0 %s %s" % (hx("sl"), hx("z")), "AL 0 %s 9" % hx("e"), "AT 0 %s %s" % (hx("m"), hx("a")),
+                  "SL 0 %s 4 5 6" % hx("l"), "SL 0 %s %s" % (hx("sl"), hx("z")), "AL 0 %s 9" % hx("e"),
+                  "SM 0 %s %s %s %s" % (hx("fl"), hx("1"), hx("2"), hx("3")), "SM 0 %s %s" % (hx("bl"), hx("no")), "AT 0 %s %s" % (hx("m"), hx("a")),
                   "AT 0 %s %s" % (hx("m"), hx("b")), "SI 0 %s 0 2" % hx("one|w"),
                   "PB 0 " + hx(b"n { y = 1 } n { y = 2 } n { y = 3 }\n")]
     out["emptied"] = ["SL 0 %s" % hx("l"), "SL 0 %s" % hx("sl"), "SS 0 %s 0 -" % hx("s")]
-    out["annotated"] = ["SC 0 %s %s" % (hx(n), hx("note " + n)) for n in ("i", "s", "f", "l", "sl", "e")]
+    out["annotated"] = ["SC 0 %s %s" % (hx(n), hx("note " + n)) for n in ("i", "s", "f", "l", "sl", "e", "fl", "bl")]
     out["annotated_set"] = out["set"] + out["annotated"]
     for n in range(3, maxn + 1):
         out["list%d" % n] = ["SL 0 %s %s" % (hx("l"), " ".join(str(k) for k in range(n)))] if n <= 6 else \
@@ -46,6 +48,13 @@ def refusing(maxpos):
         fv = [hx("1.5")] * maxpos
         fv[pos] = hx("1e999")
         ops.append(("setmulti_float_range@%d" % pos, "SM 0 %s %s" % (hx("f"), " ".join(fv[:pos + 1]))))
+        fv[pos] = hx("2.5.")
+        ops.append(("setmulti_floatlist_bad@%d" % pos, "SM 0 %s %s" % (hx("fl"), " ".join(fv))))
+        bv = [hx("yes"), hx("off")] * maxpos
+        bv = bv[:maxpos]
+        bv[pos] = hx("1")
+        ops.append(("setmulti_boollist_bad@%d" % pos, "SM 0 %s %s" % (hx("bl"), " ".join(bv))))
+        ops.append(("setmulti_bool_bad@%d" % pos, "SM 0 %s %s" % (hx("b"), " ".join(bv[:pos + 1]))))
     ops += [("veto_int", "SI 0 %s 0 -4" % hx("i")), ("veto_int_list", "SI 0 %s 1 -4" % hx("l")), ("veto_str", "SS 0 %s 0 %s" % (hx("s"), hx("!no"))),
             ("wrong_type", "SI 0 %s 0 1" % hx("s")), ("wrong_type2", "SS 0 %s 0 %s" % (hx("i"), hx("q"))), ("wrong_type3", "SB 0 %s 0 1" % hx("l")),
             ("bad_index", "SI 0 %s 3 1" % hx("i")), ("bad_index_str", "SS 0 %s 1 %s" % (hx("s"), hx("q"))),
